@@ -6,3 +6,8 @@ n = 0
 for p in glob.glob('/verif/evidence/C*.json'):
     jsonschema.validate(json.load(open(p)), json.load(open('/root/.vp/EVIDENCE.schema.json'))); n += 1
 print('manifest valid;', n, 'evidence files valid')
+# on the tree the evidence was written for, no rule may have raised (a raising rule gives no verdict: section 3 of DESIGN.md)
+bad = [(p, e['rule_fn']) for p in glob.glob('/verif/evidence/C*.json') for e in json.load(open(p))['coverage'].get('rule_errors', [])]
+if bad:
+    print('RULE ERRORS on the current tree:', bad); sys.exit(1)
+print('no rule raised on the current tree')
